@@ -4,6 +4,7 @@
 From Coq Require Import List ZArith NArith QArith Qcanon String Bool.
 From Qryn Require Import model.Sql model.Logql model.LogqlPlan model.LogqlMetricSem proofs.LogqlMetricProofs.
 From Qryn Require Import model.LogqlMetricPost proofs.LogqlMetricPostProofs.
+From Qryn Require Import model.SqlEval model.LogqlSem model.LogqlMetricE2E proofs.LogqlMetricE2EProofs.
 Import ListNotations.
 Open Scope Z_scope.
 
@@ -236,3 +237,65 @@ Theorem fix_period_covers_in_time : forall (V : Type) from step d (x : pentry V)
   covers from step d x i = true <-> (from + i * step - d <= win_start d x < from + i * step + step).
 Proof. exact @covers_time. Qed.
 Print Assumptions fix_period_covers_in_time.
+
+(* ---------- END TO END: from the stored data (C07's reference of the log part) to the metric rows ---------- *)
+(* The rows "leaving the log pipeline" are the lines C07's reference LogqlSem.log_rows2 defines over a database d
+   (window, type, matchers, run_stages: line filters, label filters, json stages with parameters, each filter reading
+   the labels the stages before it left). For every range-aggregation / vector-aggregation / quantile script whose
+   pipeline holds no drop stage, every database the writer's invariants allow (db_ok; a fingerprint is a function of
+   the label set), whatever the order in which the log selects deliver the lines (any permutation `base`):
+   the planned metric selects compute metric_ref over exactly those lines - e.g.
+   sum by (x) (rate({a="b"} | json x="p" | x="1" [1m])).
+   Oracles: the regex / float / json-extraction oracles of C07, hash_labels (the fingerprint ParserPlanner gives a
+   re-labelled line: injective, a UInt64), fp (cityHash64 of a by/without image: injective). *)
+Theorem logql_metric_correct_from_stored_data :
+  forall re_match parse_float json_get (hash_labels : LogqlSem.labels -> Z),
+  (forall a b, hash_labels a = hash_labels b -> a = b) -> (forall a, 0 <= hash_labels a) ->
+  forall (fp : lmap -> N) (to_float : string -> Qc) (quantile_o : string -> list Qc -> Qc) (varpop stddevpop : list Qc -> Qc),
+  (forall a b, fp a = fp b -> a = b) ->
+  forall c d s fin p base,
+  analyze_m15 s = false -> plan_metric s fin = Some p -> script_ok s -> 0 < c_step_ns c ->
+  db_ok c d -> fp_of_labels_ok d -> 0 <= c_from_ns c -> no_drop (sel_pipeline (log_part s)) = true ->
+  Permutation.Permutation base (base_of re_match parse_float json_get hash_labels s c d) ->
+  option_map (map strip) (sem fp to_float quantile_o varpop stddevpop p c base)
+    = metric_ref to_float quantile_o varpop stddevpop s c (map entry_of base)
+  /\ Permutation.Permutation (map entry_of base) (map entry_of_out (log_lines re_match parse_float json_get hash_labels s c d)).
+Proof. exact metric_correct_db. Qed.
+Print Assumptions logql_metric_correct_from_stored_data.
+
+(* in table order both sides are one function of the stored data *)
+Theorem logql_metric_correct_from_stored_data_eq :
+  forall re_match parse_float json_get (hash_labels : LogqlSem.labels -> Z),
+  (forall a b, hash_labels a = hash_labels b -> a = b) -> (forall a, 0 <= hash_labels a) ->
+  forall (fp : lmap -> N) (to_float : string -> Qc) (quantile_o : string -> list Qc -> Qc) (varpop stddevpop : list Qc -> Qc),
+  (forall a b, fp a = fp b -> a = b) ->
+  forall c d s fin p,
+  analyze_m15 s = false -> plan_metric s fin = Some p -> script_ok s -> 0 < c_step_ns c ->
+  db_ok c d -> fp_of_labels_ok d -> 0 <= c_from_ns c -> no_drop (sel_pipeline (log_part s)) = true ->
+  option_map (map strip) (sem fp to_float quantile_o varpop stddevpop p c (base_of re_match parse_float json_get hash_labels s c d))
+    = metric_ref_db re_match parse_float json_get hash_labels to_float quantile_o varpop stddevpop s c d.
+Proof. exact metric_correct_db_eq. Qed.
+Print Assumptions logql_metric_correct_from_stored_data_eq.
+
+(* the lines of log_rows2 meet the hypotheses of logql_metric_correct (the trusted assumption "a fingerprint stands for
+   one label set" of the earlier slice is now a theorem about the reference of the log part) *)
+Theorem log_lines_are_consistent :
+  forall re_match parse_float json_get (hash_labels : LogqlSem.labels -> Z),
+  (forall a b, hash_labels a = hash_labels b -> a = b) -> (forall a, 0 <= hash_labels a) ->
+  forall q c d, db_ok c d -> fp_of_labels_ok d -> no_drop (sel_pipeline q) = true ->
+  consistent (map mrow_of (log_rows2 re_match parse_float json_get hash_labels q c d)).
+Proof. exact base_consistent. Qed.
+Print Assumptions log_lines_are_consistent.
+
+(* WITHOUT the guard the statement is false of the faithful model (finding drop-keeps-fingerprint): PlannerDrop rewrites
+   the labels and keeps the fingerprint, the range aggregation groups by fingerprint. rate({a="b"} | drop c [5s]) over the
+   streams {a="b",c="1"}, {a="b",c="2"} (every other hypothesis met, for every oracle): the SQL side reports two series
+   with the one label set {a="b"}, the reference one series counting both lines. *)
+Theorem logql_metric_correct_from_stored_data_refuted :
+  forall re_match parse_float json_get hash_labels fp to_float quantile_o varpop stddevpop,
+  exists p, plan_metric dk_script true = Some p /\ analyze_m15 dk_script = false /\ script_ok dk_script /\
+    0 < c_step_ns dk_ctx /\ 0 <= c_from_ns dk_ctx /\ db_ok dk_ctx dk_db /\ fp_of_labels_ok dk_db /\
+    option_map (map strip) (sem fp to_float quantile_o varpop stddevpop p dk_ctx (base_of re_match parse_float json_get hash_labels dk_script dk_ctx dk_db))
+    <> metric_ref_db re_match parse_float json_get hash_labels to_float quantile_o varpop stddevpop dk_script dk_ctx dk_db.
+Proof. exact metric_drop_refuted. Qed.
+Print Assumptions logql_metric_correct_from_stored_data_refuted.
